@@ -110,3 +110,23 @@ contract(EX + '.get_value', props=['C07'], name='C07:ExpressionNode.get_value', 
          # the final result is the value truncated toward zero
          ensures=[f'result == trunc({EV})'],
          modifies=[], allocates=True, no_frame_check=True)
+
+
+# ---- literal notations: which notation a text is read in, and that it is read in that radix ------------------------------
+# ($ and 0x hexadecimal, trailing-H hexadecimal -- also when the digits start with a `b` --, then b / % binary, then decimal;
+#  int(text, radix) is CPython's, an uninterpreted function of the text here)
+S = 'numeric_str'
+IS_HEX_P, IS_HEX_0X, IS_HEX_H = f'{S}.startswith("$")', f'{S}.startswith("0x")', f'{S}.endswith("H")'
+IS_BIN = f'({S}.startswith("b") or {S}.startswith("%"))'
+IS_CHR = f"({S}.startswith(\"'\") or {S}.startswith('\"'))"
+contract('bespokeasm.utilities:parse_numeric_string', name='literal-notations', props=['C07'],
+         # (`'(.)'`: the one group of the character pattern is not optional -- trusted fact about that regular expression)
+         regex_facts={'PATTERN_CHARACTER_ORDINAL': [1]},
+         may_raise={'ValueError': 'True'},
+         ensures=[f'implies({IS_HEX_P}, result == int({S}[1:], 16))',
+                  f'implies(not {IS_HEX_P} and {IS_HEX_0X}, result == int({S}[2:], 16))',
+                  f'implies(not {IS_HEX_P} and not {IS_HEX_0X} and {IS_HEX_H}, result == int({S}[:-1], 16))',
+                  f'implies(not {IS_HEX_P} and not {IS_HEX_0X} and not {IS_HEX_H} and {IS_BIN}, result == int({S}[1:], 2))',
+                  f'implies(not {IS_HEX_P} and not {IS_HEX_0X} and not {IS_HEX_H} and not {IS_BIN} and not {IS_CHR},'
+                  f' result == int({S}))'],
+         modifies=[], no_frame_check=True)
